@@ -447,7 +447,110 @@ class Run:
                 raise Violation("J4", "probe", f"circuit {c['n']} no longer carries data at the end: {v.msg}", self.case)
 
 
+def run_reuse_case(ctx: Ctx | None, case: dict) -> None:
+    """
+    A circuit id that comes free and is taken again while old handshake traffic for it is still under way.
+
+    A builds A -> R -> E; E's created answer to R is late. Meanwhile A tears its circuit down (signed destroy), R's entry
+    for it goes after the removal delay, and another originator C opens a one-hop circuit to R that happens to get the
+    SAME circuit id (ids are random 32-bit numbers; the harness forces the collision). Then the late answer reaches R.
+    Whether R lets C use the id that early is R's business; if it does, C's circuit is C's: its data leaves at R only, R
+    keeps C's exit entry, nothing of it reaches E or A.
+    """
+    from ..tunnelsim import parse_cell
+
+    def fail(clause, site, msg):
+        raise Violation(clause, "reuse:" + site, msg, case)
+    c = case["reuse"]
+    info = {"nt": False, "cls": "reuse/refused"}
+
+    async def main(loop):
+        w = World(loop, 4)
+        try:
+            a, r, e, cn = w.nodes
+            peer = {(x.idx, y.idx): next(p for p in x.overlay.candidates
+                                         if p.public_key.key_to_bin() == y.key.pub().key_to_bin())
+                    for x in w.nodes for y in w.nodes if x is not y}
+            # A only knows R as relay and E as exit: its two-hop circuit is A -> R -> E
+            a.overlay.candidates.pop(peer[(0, 3)], None)
+            held: list = []
+
+            def hook(fl):
+                cell = parse_cell(fl.data, w.prefix)
+                if cell is not None and cell["plaintext"] and cell["message"][:1] == b"\x03" and \
+                        fl.src == e.address and fl.dst == r.address and not held:
+                    held.append(fl)
+                    return []
+                return None
+            w.net.on_send = hook
+            import random
+            random.seed(case.get("seed", 5))
+            ca = a.overlay.create_circuit(2, required_exit=peer[(0, 2)])
+            if ca is None:
+                raise HarnessError("A could not start its circuit")
+            a1 = ca.circuit_id
+            await asyncio.sleep(c["destroy_at"])
+            if not held:
+                raise HarnessError("E's created answer was not seen")
+            if a1 not in r.overlay.exit_sockets:
+                raise HarnessError("R holds no entry for A's circuit")
+            await a.overlay.remove_circuit(a1, "gone", remove_now=True, destroy=True)
+            await asyncio.sleep(c["reuse_at"] - c["destroy_at"])
+            cn.overlay._generate_circuit_id = lambda: a1  # noqa: SLF001 - an (honest) collision of random ids
+            got: list = []
+            cn.overlay.on_raw_data = lambda circ, org, data: got.append((circ.circuit_id, tuple(org), data))
+            cc = cn.overlay.create_circuit(1, required_exit=peer[(3, 1)])
+            await asyncio.sleep(0.5)
+            ready = cc is not None and cc.state == "READY" and cc.circuit_id == a1
+            if ready:
+                owner = r.overlay.exit_sockets.get(a1)
+                if owner is None or owner.hop.peer.public_key.key_to_bin() != cn.key.pub().key_to_bin():
+                    raise HarnessError("C's circuit is ready but R has no exit entry for it")
+            await asyncio.sleep(max(0.0, c["late_at"] - c["reuse_at"] - 0.5))
+            w.net.on_send = None
+            before = w.routing_digest()
+            fl = held[0]
+            w.net.inject(fl.src, fl.dst, fl.data, note="late created of the abandoned extend")
+            await w.net.settle()
+            await asyncio.sleep(0.2)
+            if not ready:
+                return
+            info["nt"], info["cls"] = True, "reuse/accepted"
+            ent = r.overlay.exit_sockets.get(a1)
+            if ent is None or ent.hop.peer.public_key.key_to_bin() != cn.key.pub().key_to_bin():
+                fail("J2", "exit_entry", f"R accepted C's circuit under id {a1}; after the late created answer of A's abandoned "
+                                         f"extend R no longer holds C's exit entry (relay entries: "
+                                         f"{sorted(k for k in r.overlay.relay_from_to)})")
+            seq0 = w.net.seq
+            sent0 = {id(t): len(t.sent) for t in loop.transports}
+            cn.overlay.send_data(cc.hop.address, cc.circuit_id, ("5.5.5.5", 5555), ("0.0.0.0", 0), b"d4:mine1:ce")
+            await asyncio.sleep(0.5)
+            where = []
+            for t in loop.transports:
+                if any(d == b"d4:mine1:ce" for d, _ in t.sent[sent0.get(id(t), 0):]):
+                    sock = getattr(getattr(t.protocol, "received_cb", None), "__self__", None)
+                    where.append(next((nd.idx for nd in w.nodes if nd.overlay is getattr(sock, "overlay", None)), None))
+            if where != [r.idx]:
+                fail("J1", "exit", f"data C sent into its ready one-hop circuit to R left at nodes {where}")
+            stray = [(f.src, f.dst) for f in w.net.log if f.seq > seq0 and f.dst in (e.address, a.address)
+                     and parse_cell(f.data, w.prefix) is not None]
+            if stray:
+                fail("J1", "stray_cells", f"after C sent data into its circuit, cells travelled to nodes that are not on it: "
+                                          f"{stray[:3]}")
+            del before
+        finally:
+            w.net.on_send = None
+            await w.close()
+    try:
+        vloop.run(main)
+    finally:
+        if ctx is not None:
+            ctx.case(("reuse", tuple(sorted(c.items()))), info["nt"], cls=info["cls"], sample=case)
+
+
 def run_case(ctx: Ctx | None, case: dict) -> None:
+    if "reuse" in case:
+        return run_reuse_case(ctx, case)
     r = Run(ctx, case)
     try:
         vloop.run(r.main)
@@ -483,6 +586,12 @@ def _strategy(max_ops: int):
 
 def _shard(ctx: Ctx, shard: int, nshards: int, n: int, max_ops: int) -> None:
     hyp_run(ctx, "histories", _strategy(max_ops), lambda c: run_case(ctx, c), n)
+    from hypothesis import strategies as st
+    reuse = st.tuples(st.sampled_from([0.1, 0.5, 1.0, 3.0]), st.sampled_from([0.2, 1.0, 5.2, 5.6, 6.5, 8.0]),
+                      st.sampled_from([0.7, 1.5, 2.0]), st.integers(0, 50)).map(
+        lambda t: {"reuse": {"destroy_at": t[0], "reuse_at": t[0] + t[1], "late_at": min(9.8, t[0] + t[1] + t[2])},
+                   "seed": t[3]})
+    hyp_run(ctx, "id_reuse", reuse, lambda c: run_case(ctx, c), max(4, n // 25))
 
 
 def run(ctx: Ctx) -> None:
